@@ -25,6 +25,24 @@ func assignsIndexOf(name string) func(ast.Stmt) bool {
 	}
 }
 
+// firstIfMentioning picks the first `if` statement whose condition mentions the given field name.
+func firstIfMentioning(field string) func(ast.Stmt) bool {
+	return func(s ast.Stmt) bool {
+		ifs, ok := s.(*ast.IfStmt)
+		if !ok {
+			return false
+		}
+		found := false
+		ast.Inspect(ifs.Cond, func(n ast.Node) bool {
+			if sel, ok := n.(*ast.SelectorExpr); ok && sel.Sel.Name == field {
+				found = true
+			}
+			return !found
+		})
+		return found
+	}
+}
+
 func init() {
 	registerLogic(logicUnit{Name: "LogicIcmp", Dir: "icmp", Targets: []logicTarget{
 		{Fn: "icmpDriver.handleProbeLayers", Lean: "handleProbeLayers"},
@@ -45,6 +63,7 @@ func init() {
 	registerLogic(logicUnit{Name: "LogicRunner", Dir: "traceroute", Targets: []logicTarget{
 		{Fn: "performTCPFallback", Lean: "performTCPFallback"},
 		{Fn: "runE2eProbeOnce", Lean: "runE2eProbeOnce"},
+		{Fn: "runTracerouteOnce", Lean: "ttlGuard", Pick: firstIfMentioning("MinTTL")},
 	}})
 	registerLogic(logicUnit{Name: "LogicPackets", Dir: "packets", Targets: []logicTarget{
 		{Fn: "AllocPacketID", Lean: "AllocPacketID"},
